@@ -30,6 +30,7 @@ type World struct {
 	Lemmas      []*Lemma
 	TypeSpecs   map[string]*TypeSpec
 	opaqueTypes map[string]bool
+	valuelike   map[string]bool
 	pureExterns map[string]bool
 	Files       []*ContractFile
 	globals     map[string]*Cell
@@ -43,7 +44,7 @@ type World struct {
 // contract files that sit next to them.
 func LoadWorld(dir string, patterns []string, repoRoot, mirrorRoot string, overlay map[string][]byte) (*World, error) {
 	w := &World{Fset: token.NewFileSet(), Pkgs: map[string]*pkgInfo{}, Contracts: map[string]*Contract{}, SpecFuncs: map[string]*SpecFunc{},
-		TypeSpecs: map[string]*TypeSpec{}, opaqueTypes: map[string]bool{}, pureExterns: map[string]bool{}, globals: map[string]*Cell{},
+		TypeSpecs: map[string]*TypeSpec{}, opaqueTypes: map[string]bool{}, valuelike: map[string]bool{}, pureExterns: map[string]bool{}, globals: map[string]*Cell{},
 		RepoDir: repoRoot, MirrorDir: mirrorRoot}
 	cfg := &packages.Config{
 		Mode: packages.NeedName | packages.NeedFiles | packages.NeedSyntax | packages.NeedTypes | packages.NeedTypesInfo |
@@ -126,6 +127,9 @@ func (w *World) addContractFile(cf *ContractFile) {
 		}
 		if ts.Opaque {
 			w.opaqueTypes[key] = true
+		}
+		if ts.Valuelike {
+			w.valuelike[key] = true
 		}
 		w.TypeSpecs[key] = ts
 	}
